@@ -249,7 +249,7 @@ def run(ctx):
     rnd = ctx.rnd
     import os
 
-    zy = zygote.Zygote(share_dir=os.path.join(core.VERIF_DIR, "out", "C05", "ref"))
+    zy = zygote.Zygote(share_dir=os.path.join(os.environ.get("VERIF_SCRATCH") or core.VERIF_DIR, "out", "C05", "ref"))
     # every reference costs a fork of the helper (tens of ms on this VM): each worker explores
     # histories over its own slice of the sources so that its reference cache stays small
     global ACTIVE_SOURCES
